@@ -132,6 +132,18 @@ func ncSession(state string) {
 	case "inflight":
 		go func() { _, _ = d.Get("") }()
 	}
+	if state == "second-conc" {
+		// several closers released at the same moment
+		var wg sync.WaitGroup
+		start := make(chan struct{})
+		for i := 0; i < 6; i++ {
+			wg.Add(1)
+			go func() { defer wg.Done(); <-start; _ = d.Close() }()
+		}
+		close(start)
+		waitOrHang(&wg)
+		return
+	}
 	_ = d.Close()
 	if state == "second-seq" {
 		_ = d.Close()
@@ -159,6 +171,12 @@ func TestC07(t *testing.T) {
 			}
 			for _, st := range []string{"idle", "eof-seen", "eof-pending", "eio-unconsumed", "second-seq", "inflight"} {
 				ncSession(st)
+			}
+			if procs > 1 {
+				for k := 0; k < 40; k++ {
+					ncSession("second-conc")
+					cliSession("second-conc", dev.CloseEOF)
+				}
 			}
 		}
 	}
